@@ -123,6 +123,11 @@ def inputs(tier, seed, corpus):
     for lt in ('\n', '\r', '\r\n', '\u2028', '\u2029'):
         for head in ('a%sb c', 'a;%s  b c', '/* x%sy */ b c', 'a = "s\\%st" b', 'a;%s%s)', '// c%s  @'):
             yield head.replace('%s', lt)
+    # an error directly behind tokens whose text is special to string formatting: the message quotes its neighbours
+    for prev in ('%', '%=', "'100%'", '"%s"', "'%(x)s'", "'%d%%'", "'{0}'", "'{'", '"}"', "/%s/", '/{}/g', "'\\\\'", 'a%b', '$', '"\\u0025"'):
+        for bad in ('#', '@', '\\', ')', ']', 'b c', '"open', '/* open'):
+            yield 'x = y %s %s' % (prev, bad) if prev in ('%', '%=') else 'x = %s %s' % (prev, bad)
+            yield 'x = %s%s;' % (prev, bad)
     yield '/x\ny/ /'
     yield 'a = /x\ny/ )'
     yield '"\\\n" +'
@@ -146,7 +151,7 @@ def main(run, tier):
     cs, lemmas, env = ce.build(importlib.import_module('calmjs.parse.lexers.es5'), es5)
     verify_functions(run, cs, {}, {}, tier=tier)
     from . import parsefwd
-    parsefwd.add(run, tier)
+    parsefwd.add(run, tier, positions=True)
     # the scanning loops of Lexer._token terminate (variants len - pos / len - lexpos), relative to ply consuming >= 1 character per token
     import contracts.token as ctok
     verify_functions(run, ctok.build(importlib.import_module('calmjs.parse.lexers.es5')), {}, {}, tier=tier)
